@@ -50,6 +50,22 @@ ShapeConfs == WithGC({
 AliasConfs == {
   [Base EXCEPT !.cp = Two(CC("M3", "t1", {}, FALSE, "p"), CC("M4", "t2", {}, FALSE, "p/")),
                !.ckeys = {"p", "p/"}, !.faults = FALSE] }
+\* more histories for the real code only (too large for the exhaustive check): referrers of a
+\* manifest nested two levels deep, copies that share children, deletes of manifests that other
+\* manifests still list, a schema1 image that is already there
+ShapeConfsGen == ShapeConfs \cup WithGC({
+  [Base EXCEPT !.cp = Two(CC("N1", "t1", {}, TRUE, "p"), CC("S1", "t2", {}, FALSE, "p")),
+               !.dels = {"A1", "I1"}, !.tdels = {"t1", "t2", FB}, !.faults = FALSE],
+  [Base EXCEPT !.cp = Two(CC("N1", "t1", {}, FALSE, "p"), CC("I1", "t2", {"M1"}, FALSE, "p")),
+               !.dels = {"I1", "M2", "N1"}, !.tdels = {"t1", "t2"}, !.faults = TRUE],
+  [Base EXCEPT !.cp = Two(CC("I1", "t2", {}, FALSE, "p"), CC("M2", "t3", {}, FALSE, "p")),
+               !.pre = {<<"N1", "t1">>}, !.plant = {"tmp-plant", "tmp-plant-man"},
+               !.dels = {"I1", "N1", "M3"}, !.tdels = {"t1", "t2", "t3"}, !.faults = FALSE],
+  [Base EXCEPT !.cp = Two(CC("X1", "t1", {}, FALSE, "p"), CC("M2", "t2", {}, FALSE, "p")),
+               !.dels = {"X1", "M4"}, !.tdels = {"t1", "t2"}, !.faults = TRUE],
+  [Base EXCEPT !.cp = Two(CC("S1", "t1", {}, FALSE, "p"), CC("M1", "t2", {}, TRUE, "p")),
+               !.pre = {<<"S1", "legacy">>}, !.pmans = {<<"A1", "art">>, <<"M3", "child">>}, !.pblobs = {"C3", "L4"},
+               !.badput = TRUE, !.dels = {"S1", "A1", "A2"}, !.tdels = {"legacy", "art", "t1", FB}, !.faults = TRUE] })
 ShapeConfsOn == {x \in ShapeConfs : x.gc}
 GenConfs == LockConfs \cup ShapeConfs
 =============================================================================
